@@ -7,6 +7,7 @@ SleepN(d) == O("SleepN", d, "-", 0)
 SleepOp(d) == O("SleepOp", d, "-", 0)
 SelT(d) == O("SelT", d, "-", 0)
 SelFD(f, d) == O("SelFD", d, f, 0)
+SelW(d) == O("SelW", d, "wa", 0)
 Block == O("Block", 0, "-", 0)
 Raise == O("Raise", 0, "-", 0)
 Exit == O("Exit", 0, "-", 0)
@@ -35,6 +36,10 @@ OpsIO == {Recv("a", NoTO), Recv("a", 1), Send(<<Ck("F")>>), Send(<<Ck("P"), Ck("
           Send(<<Ck("P"), Ck("B"), Ck("F")>>), Resched, SleepN(1)}
 ProgsIO1 == SeqsUpTo(OpsIO, 1)
 ProgsIO2 == SeqsUpTo(OpsIO, 2)
+\* read and write interest in the SAME socket, by different tasks or one after the other
+OpsRW == {Recv("a", NoTO), SelFD("a", 1), SelFD("a", NoTO), SelW(NoTO), SelW(1), Resched}
+ProgsRW == SeqsUpTo(OpsRW, 1) \cup {<<SelW(NoTO), Recv("a", NoTO)>>, <<SelFD("a", NoTO), SelW(NoTO)>>,
+                                     <<SelW(1), SelFD("a", 1)>>, <<Resched, SelW(NoTO)>>, <<SelW(NoTO), SelW(1)>>}
 \* small vocabulary for 3 tasks / deeper programs
 OpsB == {Resched, SleepN(1), SelT(2), Block, Call(<<SleepOp(1)>>, "ret")}
 ProgsB2 == SeqsUpTo(OpsB, 2)
